@@ -142,6 +142,9 @@ def generate(seed, tier="quick"):
     sc["between_runs"] = {"unrelated_draws": r.choice([0, 1, 5, 1000]), "sleep": r.choice([0.0, 0.4, 2.5, 90.0]),
                           "new_session": r.random() < 0.5}
     sc["reuse_objects"] = r.random() < 0.4  # the repeat run re-uses the first run's engine / process / product objects
+    if sc.get("nproc") != 1 and r.random() < 0.1:
+        sc["env"]["task_fail_one_in"] = r.choice([2, 6])
+        sc["faults"].append("pool.task_failed")
     return sc
 
 
